@@ -6,7 +6,7 @@
     All theorems quantify over EVERY label list = every client program (any number of handlers,
     RunHandlers / Stop / Close / Run calls and threads) and every schedule. *)
 From WM Require Import Base.Prelude Base.Count RouterLife.Model RouterLife.Monitor RouterLife.Inv
-                       RouterLife.ProofsA RouterLife.ProofsB RouterLife.Theorems RouterLife.Witness.
+                       RouterLife.ProofsA RouterLife.ProofsB RouterLife.ProofsW RouterLife.SelfClose RouterLife.Local RouterLife.Accept RouterLife.Theorems RouterLife.Witness.
 
 (** Running() closed => each of the [run_n] handlers registered when Run's RunHandlers took
     handlersLock is started and holds its (one) subscription. *)
@@ -53,15 +53,30 @@ Theorem C10_started_implies_stoppable_fixed_witness :
 Proof. exact d4_fixed_witness. Qed.
 Print Assumptions C10_started_implies_stoppable_fixed_witness.
 
-(** Stop ends that handler only (step level; the composition into one reachable-state statement
-    and its link to the monitor clauses 5/6/8 is not mechanised, hence _partial): a Stop call on
-    h changes nothing but h's own cancel flag ... *)
-Theorem C10_stop_is_local_partial : forall s t h a c s' evs,
+(** Stop ends that handler only: in EVERY reachable state (all variants), whatever was done to
+    OTHER handlers (Stop calls, subscriptions ended by the environment), a started handler h2
+    that was not stopped itself ([h_stopreq]), whose subscription was not ended by the environment
+    ([h_envend]) - while nothing global happened ([glob]: Run context cancelled, Run's own cancel,
+    router closing) - is still in its receive loop with an open subscription and a live context,
+    takes its next message, and its publisher is open unless a handler SHARING it was stopped/ended. *)
+Theorem C10_stop_is_local : forall (f4 f14 f15 : bool) (ls : list label),
+  let s := run (rinit f4 f14 f15) ls in
+  forall h2, h_loop (hs s h2) <> LNone -> reason (hs s h2) = false -> glob s = false ->
+    h_loop (hs s h2) = LRange /\ h_subOpen (hs s h2) = true /\ h_cancel (hs s h2) = false
+    /\ step s (LRecv h2) <> None
+    /\ (forall p, h_pub (hs s h2) = Some p ->
+          (forall h1, h1 < nexth s -> h_pub (hs s h1) = Some p -> reason (hs s h1) = false) ->
+          pubClosed s p = false).
+Proof. exact stop_is_local. Qed.
+Print Assumptions C10_stop_is_local.
+
+(** the step-level facts behind it: a Stop call on h changes nothing but h's own flags ... *)
+Theorem C10_stop_changes_only_its_handler : forall s t h a c s' evs,
   thr s t = TStopRead h a \/ thr s t = TStopCall h a -> step s (LT t c) = Some (s', evs) ->
   (forall h', h' <> h -> hs s' h' = hs s h') /\ pubClosed s' = pubClosed s /\ cctx s' = cctx s /\ rcancel s' = rcancel s
   /\ closingCh s' = closingCh s /\ closedF s' = closedF s /\ hwg s' = hwg s /\ hlock s' = hlock s /\ mainp s' = mainp s /\ wat s' = wat s.
 Proof. exact stop_frame_globals. Qed.
-Print Assumptions C10_stop_is_local_partial.
+Print Assumptions C10_stop_changes_only_its_handler.
 
 (** ... a publisher is closed only by the goroutine of a handler that uses it, after that
     handler's own loop has ended ... *)
@@ -97,17 +112,28 @@ Theorem C10_shared_publisher_witness :
 Proof. exact shared_publisher_witness. Qed.
 Print Assumptions C10_shared_publisher_witness.
 
-(** Self-close, the part that is a theorem (hence _partial): handlersWg counts exactly the
-    handlers whose goroutine has not passed Done(), so once all have, a watcher blocked in
-    Wait() continues.  NOT mechanised: the full stuck-state characterisation (closedLock /
-    handlersLock holders always progress, the handlerAdded signal is pending whenever the
-    watcher still waits for it) and a termination measure. *)
-Theorem C10_self_close_partial : forall (f4 f14 f15 : bool) (ls : list label),
+(** Self-close (repaired model, all three flags): in EVERY reachable state in which Run has
+    started and not returned, if at least one handler was added and every added handler's
+    goroutine is past handlersWg.Done() - or the Run context is cancelled and every added handler
+    is started with a subscription that follows that context - then some goroutine of the router
+    or some call in progress ([internal] label: Run, watcher, handler goroutine, handleClose,
+    context-honouring subscriber, in-flight message, thread inside RunHandlers/Close/Stop/Run)
+    can take a step: no deadlock before Run returns.  (Run's last step returns nil.) *)
+Theorem C10_self_close_never_stuck : forall (ls : list label),
+  let s := run (rinit true true true) ls in
+  mainp s <> RNone -> (forall ok, mainp s <> RDone ok) ->
+  (0 < nexth s /\ all_past_done s) \/ (cctx s = true /\ all_follow_ctx s) ->
+  exists l, internal l = true /\ step s l <> None.
+Proof. exact self_close_not_stuck. Qed.
+Print Assumptions C10_self_close_never_stuck.
+
+(** the WaitGroup part on its own, for every variant: all goroutines past Done => counter zero *)
+Theorem C10_self_close_wg_zero : forall (f4 f14 f15 : bool) (ls : list label),
   let s := run (rinit f4 f14 f15) ls in
   (forall h, h < nexth s -> pend (h_loop (hs s h)) = false) ->
   hwg s = 0 /\ (wat s = WWait -> step s (LWatch CStep) <> None).
 Proof. exact all_ended_wg_zero. Qed.
-Print Assumptions C10_self_close_partial.
+Print Assumptions C10_self_close_wg_zero.
 
 (** FALSE of the pinned code (D14): started empty, first handler added before the watcher blocks
     in its select, handler stopped -> every handler ended, no goroutine can move, Run never returns. *)
@@ -168,6 +194,19 @@ Theorem C10_no_panic_and_mutex : forall (f4 f14 f15 : bool) (ls : list label),
   /\ hwg s = cnt (fun h => pend (h_loop (hs s h))) (nexth s).
 Proof. exact no_panic_and_mutex. Qed.
 Print Assumptions C10_no_panic_and_mutex.
+
+(** monitor_accepts, the finished part (hence _partial): for EVERY step of RunHandlers - executed
+    by Run or by a client thread [me] that is the lock holder whenever its pc is inside the
+    critical section - the simulation invariant [MInv] between model state and monitor state is
+    preserved and the monitor raises nothing on the emitted events (clause 2, "second successful
+    Subscribe", never fires).  Missing for the full statement "verdict (hist (rinit true true true) ls) = 0":
+    the per-label lemmas for the other 17 label kinds and the reason clauses behind code 6. *)
+Theorem C10_monitor_accepts_partial : forall s m me par p c s1 p' e,
+  SInv s -> MInv s m -> okbad m -> (rhl p = true -> holder s me par p) ->
+  rh_step s me par p c = Some (s1, p', e) ->
+  MInv s1 (mon_run m e) /\ okbad (mon_run m e).
+Proof. exact rh_minv. Qed.
+Print Assumptions C10_monitor_accepts_partial.
 
 (** the hypotheses are satisfiable and the behaviour is non-trivial *)
 Example C10_running_reachable :
